@@ -86,12 +86,12 @@ func (g *gen) textCases(ids []s2.CellID) {
 		all = append(all, s)
 	}
 	for n, s := range toks {
-		if n%7 == int(c.Seed%7) || g.budget >= 8 {
+		if n%16 == int(c.Seed%16) || g.budget >= 8 {
 			all = append(all, mut(s)...)
 		}
 	}
 	for n, s := range strs {
-		if n%7 == int(c.Seed%7) || g.budget >= 8 {
+		if n%16 == int(c.Seed%16) || g.budget >= 8 {
 			all = append(all, mut(s)...)
 		}
 	}
